@@ -37,7 +37,11 @@ def build(tier, seed):
             hook="call_f",
             meta={"kwsets": [list(x) for x in ks], "maxpos": maxpos},
         )
-        t.sem_configs = [common.SEM_CONFIGS[(k + seed) % 4]] if tier == "quick" else [common.SEM_CONFIGS[k % 4], common.SEM_CONFIGS[(k + 1) % 4]]
+        if tier == "quick" or sum(sh[:5]) > 3:
+            # (thorough: the large shapes -- most of the cost -- get one rotating configuration)
+            t.sem_configs = [common.SEM_CONFIGS[(k + seed) % 4]]
+        else:
+            t.sem_configs = [common.SEM_CONFIGS[k % 4], common.SEM_CONFIGS[(k + 1) % 4]]
         tpls.append(t)
     for name, src in fam.PLACEMENT_TEMPLATES.items():
         names, nv = fam.PLACEMENT_NAMES[name]
